@@ -15,6 +15,48 @@ def uses_c02(prog):
   return '"agg"' in s or '"combine"' in s or '"not"' in s or any(d.get('distinct') for d in prog)
 
 
+def arg_k_values(rep, tier):
+  """ArgMinK / ArgMaxK / ArgMin / ArgMax as predicate-level aggregation and as aggregating expression: the K names
+  with the smallest / largest scores of each group (scores distinct), in score order, whatever the row order."""
+  from vlib import logica_run
+  r = common.rng('c02-argk')
+  n = 8 if tier == 'quick' else 120
+  runs = bad = 0
+  for _ in range(n):
+    m = r.randint(3, 7)
+    scores = r.sample(range(1, 50), m)
+    rows = [('g%d' % r.randint(0, 1), 'n%d' % i, sc) for i, sc in enumerate(scores)]
+    r.shuffle(rows)
+    k = r.choice([1, 2, 2, 3, 4])
+    mx = r.random() < 0.5
+    op = ('ArgMax' if mx else 'ArgMin') + ('K' if k > 1 or r.random() < 0.5 else '')
+    facts = ''.join('Score("%s", "%s", %d);\n' % x for x in rows)
+    fn = 'Best(x) = %s(x, %d);\n' % (op, k) if op.endswith('K') else ''
+    name = 'Best' if op.endswith('K') else op
+    form = r.choice(['predicate', 'expression'])
+    if form == 'predicate':
+      rule = 'Q(g) %s= (n -> s) :- Score(g, n, s);\n' % name
+    else:
+      rule = 'G(g) distinct :- Score(g, n, s);\nQ(g) = v :- G(g), v %s= (n -> s :- Score(g, n, s));\n' % name
+    text = '@Engine("sqlite");\n' + facts + fn + rule
+    want = []
+    for g in sorted(set(x[0] for x in rows)):
+      members = sorted([x for x in rows if x[0] == g], key=lambda x: x[2], reverse=mx)
+      names = [x[1] for x in members[:k]]
+      want.append((g, names if op.endswith('K') else names[0]))
+    st, a, b = logica_run.run_pred(text, 'Q')
+    runs += 1
+    got = sorted((x[0], x[1]) for x in b) if st == 'ok' else a
+    if (st != 'ok' or got != sorted(want)) and bad < 3:
+      bad += 1
+      rep.violation('arg-k:%s:%s' % (op, st if st != 'ok' else 'rows'), {
+          'program_text': text, 'predicate': 'Q', 'expected_rows': sorted(want), 'observed': [st, got if st == 'ok' else str(got)[:300]],
+          'law': '%s keeps the names of the %d %s scores of each group, in score order' % (op, k, 'largest' if mx else 'smallest'),
+          'how': 'vlib.logica_run.run_pred(program_text, "Q")'})
+  rep.coverage['arg_k_runs'] = runs
+  rep.coverage['evaluations'] = rep.coverage.get('evaluations', 0) + runs
+
+
 def run(tier, replay=None):
   rep = common.Report(PID, tier, 'other')
   if replay and K.replay_program_rows(rep, replay):
@@ -32,4 +74,5 @@ def run(tier, replay=None):
   if not replay:
     from props import c07
     c07.sibling_scopes(rep, tier, salt='c02-siblings')   # chained aggregating expressions with clashing local names
+    arg_k_values(rep, tier)
   return rep.finish()
